@@ -207,14 +207,15 @@ def main(argv=None):
     if required is None:
         required = [a for a in getattr(W, "ANCHORS", []) if a not in getattr(W, "ANCHORS_OPTIONAL", [])]
     unreached = [a for a in getattr(W, "ANCHORS", []) if anchors.get(a, 0) == 0]
-    for a in required:
-        if anchors.get(a, 0) == 0:
-            inconclusive.append("anchored function never reached: %s" % a)
+    # (names are evidence: a refactoring may rename or inline an entry point - benign change C04-c3 generates the operator methods
+    # as lambdas.  What makes the observation void is the workload not entering the library at all.)
+    lib_entered = max([r.get("lib_functions_entered", 0) for r in ok] or [0])
+    if lib_entered < 10:
+        inconclusive.append("the workload entered only %d functions of the library" % lib_entered)
     if getattr(W, "ANCHORS", []) and len(unreached) == len(W.ANCHORS):
         inconclusive.append("no anchored function reached at all")
     for a in unreached:
-        if a not in required:
-            lines.append("NOTE anchored helper not reached (evidence only): %s" % a)
+        lines.append("NOTE anchored %s not reached under that name (evidence only): %s" % ("entry point" if a in required else "helper", a))
     if inconclusive and exit_code == 0:
         exit_code = 2
         for r in inconclusive[:5]:
@@ -252,6 +253,7 @@ def main(argv=None):
                 "monitor_events": monitor_events,
                 "anchor_calls": anchors,
                 "anchors_required": list(required),
+                "library_functions_entered": lib_entered,
                 "anchor_helpers_not_reached": [a for a in unreached if a not in required],
                 "constructor_sites": dict(sorted(sites.items(), key=lambda kv: -kv[1])[:60]),
                 "outcomes": outcomes,
